@@ -114,10 +114,75 @@ pub fn boundary_packets_v5(tier: &str) -> Vec<v5::Packet> {
             }
         }
     }
+    v.extend(prop_boundary_packets_v5());
+    v
+}
+
+/// every v5 packet type that has a property section, with ONE user property sized so that the Property Length sits on
+/// and around the 1/2-byte and 2/3-byte width boundaries (each type has its own encode arm for the section)
+pub fn prop_boundary_packets_v5() -> Vec<v5::Packet> {
+    use std::sync::Arc;
+    let mut v = Vec::new();
+    let filter = || mqtt_proto::TopicFilter::try_from("a/b".to_string()).unwrap();
+    for b in [127usize, 16383] {
+        for d in 0..5usize {
+            let target = b - 2 + d; // b-2 .. b+2
+            let up = |extra: usize| {
+                // section = 1 (id) + 2 + name + 2 + 0, plus `extra` bytes of other properties already there
+                vec![v5::UserProperty { name: Arc::new("n".repeat(target - 5 - extra)), value: Arc::new(String::new()) }]
+            };
+            let mut c = v5::Connect::new(Arc::new("c".to_string()), 10);
+            c.properties.user_properties = up(0);
+            v.push(v5::Packet::Connect(c));
+            let mut c = v5::Connect::new(Arc::new("c".to_string()), 10);
+            let mut w = v5::LastWill::new(mqtt_proto::QoS::Level1, TopicName::try_from("w".to_string()).unwrap(), Bytes::from_static(b"m"));
+            w.properties.user_properties = up(0);
+            c.last_will = Some(w);
+            v.push(v5::Packet::Connect(c));
+            let mut k = v5::Connack::new(false, v5::ConnectReasonCode::Success);
+            k.properties.user_properties = up(0);
+            v.push(v5::Packet::Connack(k));
+            let mut p = v5::Publish::new(QosPid::Level0, TopicName::try_from("t".to_string()).unwrap(), Bytes::from_static(b"p"));
+            p.properties.user_properties = up(0);
+            v.push(v5::Packet::Publish(p));
+            let mut a = v5::Puback::new(pid1(), v5::PubackReasonCode::NoMatchingSubscribers);
+            a.properties.user_properties = up(0);
+            v.push(v5::Packet::Puback(a));
+            let mut a = v5::Pubrec::new(pid1(), v5::PubrecReasonCode::Success);
+            a.properties.user_properties = up(0);
+            v.push(v5::Packet::Pubrec(a));
+            let mut a = v5::Pubrel::new(pid1(), v5::PubrelReasonCode::Success);
+            a.properties.user_properties = up(0);
+            v.push(v5::Packet::Pubrel(a));
+            let mut a = v5::Pubcomp::new(pid1(), v5::PubcompReasonCode::PacketIdentifierNotFound);
+            a.properties.user_properties = up(0);
+            v.push(v5::Packet::Pubcomp(a));
+            let mut sb = v5::Subscribe::new(pid1(), vec![(filter(), v5::SubscriptionOptions::new(mqtt_proto::QoS::Level1))]);
+            sb.properties.user_properties = up(0);
+            v.push(v5::Packet::Subscribe(sb));
+            let mut sa = v5::Suback::new(pid1(), vec![v5::SubscribeReasonCode::GrantedQoS1]);
+            sa.properties.user_properties = up(0);
+            v.push(v5::Packet::Suback(sa));
+            let mut us = v5::Unsubscribe::new(pid1(), vec![filter()]);
+            us.properties.user_properties = up(0);
+            v.push(v5::Packet::Unsubscribe(us));
+            let mut ua = v5::Unsuback::new(pid1(), vec![v5::UnsubscribeReasonCode::Success]);
+            ua.properties.user_properties = up(0);
+            v.push(v5::Packet::Unsuback(ua));
+            let mut dc = v5::Disconnect::new(v5::DisconnectReasonCode::NormalDisconnect);
+            dc.properties.user_properties = up(0);
+            v.push(v5::Packet::Disconnect(dc));
+            let mut au = v5::Auth::new(v5::AuthReasonCode::Success);
+            au.properties.user_properties = up(0);
+            v.push(v5::Packet::Auth(au));
+        }
+    }
     v
 }
 
 pub fn record_roundtrip(out: &mut Out, tier: &str, seed: u64) {
+    attempt_oversized();
+    big_shapes(out, tier, if cfg!(debug_assertions) { "debug" } else { "release" });
     let n = if tier == "thorough" { 60000 } else { 2400 };
     let mut rng = Rng::new(seed ^ 0xC01);
     let mut b = budget(tier);
@@ -192,7 +257,112 @@ fn shape_event<F: Fam>(out: &mut Out, p: &F::Packet, shape: J, profile: &str) {
     out.ev(ev);
 }
 
+/// Packets too large to travel as JSON: a QoS-0 PUBLISH described by its SHAPE (topic length, payload length, fill byte
+/// 0x55).  Encoded once, decoded by the three front-ends, each accepted packet re-encoded; the harness reports
+/// per step whether the value equals the original / the bytes equal the first encoding (Packet: PartialEq), the
+/// specification checks the sizes, the header bytes and that every step succeeded (C01, C11 at sizes 2^21 .. 2^28).
+pub fn big_shape_event<F: Fam>(out: &mut Out, p: &F::Packet, topic_len: usize, payload_len: usize, profile: &str) {
+    use crate::io::{drive, RStep, ScriptedReader};
+    use mqtt_proto::{GenericPollPacket, GenericPollPacketState};
+    let mut ev = json!({"ev": "BigShape", "fam": F::NAME, "profile": profile,
+                        "shape": {"t": "Publish", "qos": 0, "topic_len": topic_len, "payload_len": payload_len,
+                                  "retain": F::NAME == "v5", "props_len": if F::NAME == "v5" { 1 } else { 0 }}});
+    let b: Vec<u8> = match guarded(|| F::encode(p)) {
+        Err(m) => {
+            ev["enc"] = jpanic(&m);
+            out.ev(ev);
+            return;
+        }
+        Ok(Err(e)) => {
+            ev["enc"] = err3_to_json(&e);
+            out.ev(ev);
+            return;
+        }
+        Ok(Ok(vb)) => vb.as_ref().to_vec(),
+    };
+    let tail_ok = b.len() >= payload_len && b[b.len() - payload_len..].iter().all(|x| *x == 0x55);
+    ev["enc"] = json!({"k": "ok", "len": b.len(), "head": jbytes(&b[..b.len().min(5 + 2 + 8)]), "tail_is_payload": tail_ok});
+    let arc = std::sync::Arc::new(b);
+    let b: &Vec<u8> = &arc;
+    let reenc = |q: &F::Packet| -> J {
+        match guarded(|| F::encode(q)) {
+            Err(m) => jpanic(&m),
+            Ok(Err(e)) => err3_to_json(&e),
+            Ok(Ok(vb)) => json!({"k": "ok", "same": vb.as_ref() == &b[..]}),
+        }
+    };
+    let mut decs = Vec::new();
+    // blocking
+    decs.push(match guarded(|| F::decode(b)) {
+        Err(m) => json!({"front": "block", "res": jpanic(&m)}),
+        Ok(Ok(Some(q))) => json!({"front": "block", "res": {"k": "ok"}, "eq": q == *p, "reenc": reenc(&q)}),
+        Ok(Ok(None)) => json!({"front": "block", "res": {"k": "incomplete"}}),
+        Ok(Err(e)) => json!({"front": "block", "res": F::err_json(&e)}),
+    });
+    // async, in reads of at most 1 MiB + 1 bytes
+    let r = guarded(|| {
+        let mut rd = ScriptedReader::new(arc.clone(), vec![], RStep::Data((1 << 20) + 1));
+        rd.logging = false;
+        let (o, _) = drive(F::decode_async(&mut rd), crate::codec::MAX_POLLS);
+        (o, rd.pos)
+    });
+    decs.push(match r {
+        Err(m) => json!({"front": "async", "res": jpanic(&m)}),
+        Ok((None, _)) => json!({"front": "async", "res": {"k": "spin"}}),
+        Ok((Some(Ok(q)), pos)) => json!({"front": "async", "res": {"k": "ok"}, "eq": q == *p, "pos": pos, "reenc": reenc(&q)}),
+        Ok((Some(Err(e)), _)) => json!({"front": "async", "res": F::err_json(&e)}),
+    });
+    // poll, in reads of at most 3 MiB - 1 bytes
+    let r = guarded(|| {
+        let mut st: GenericPollPacketState<F::Header> = Default::default();
+        let mut rd = ScriptedReader::new(arc.clone(), vec![], RStep::Data(3 * (1 << 20) - 1));
+        rd.logging = false;
+        let (o, _) = drive(GenericPollPacket::new(&mut st, &mut rd), crate::codec::MAX_POLLS);
+        (o, rd.pos)
+    });
+    decs.push(match r {
+        Err(m) => json!({"front": "poll", "res": jpanic(&m)}),
+        Ok((None, _)) => json!({"front": "poll", "res": {"k": "spin"}}),
+        Ok((Some(Ok((total, body, q))), pos)) => {
+            let body_ok = body.len() <= b.len() && crate::codec::body_bytes(&body)[..] == b[b.len() - body.len()..];
+            json!({"front": "poll", "res": {"k": "ok"}, "eq": q == *p, "pos": pos, "total": total, "body_len": body.len(),
+                   "body_ok": body_ok, "reenc": reenc(&q)})
+        }
+        Ok((Some(Err(e)), _)) => json!({"front": "poll", "res": F::err_json(&e)}),
+    });
+    ev["dec"] = J::Array(decs);
+    out.ev(ev);
+}
+
+/// the sizes: both sides of the 3/4-byte length boundary, of 2^24, and the largest packet there is
+pub fn big_shapes(out: &mut Out, tier: &str, profile: &str) {
+    let mut rls: Vec<usize> = vec![2097151, 2097152, 16777215, 16777216];
+    if profile == "release" {
+        rls.push(268435455);
+        if tier == "thorough" {
+            rls.extend([33554432, 134217727, 134217728, 268435454]);
+        }
+    }
+    for rl in rls {
+        let tl = 3usize;
+        big_shape_event::<V3>(out, &publish_v3(tl, rl - 2 - tl, false), tl, rl - 2 - tl, profile);
+        big_shape_event::<V5>(out, &publish_v5(tl, rl - 3 - tl), tl, rl - 3 - tl, profile);
+    }
+}
+
+/// A refused encoding must leave nothing behind: try (and ignore) one packet past the 268,435,455 limit in both
+/// families BEFORE the run's packets, on the same thread -- whatever state an encoder might keep between calls
+/// (scratch buffers, caches) then shows in every later event of the run.
+pub fn attempt_oversized() {
+    let pl = 268435456 - 2 - 3;
+    let _ = crate::io::guarded(|| {
+        let _ = enc::<V3>(&publish_v3(3, pl, false));
+        let _ = enc::<V5>(&publish_v5(3, pl));
+    });
+}
+
 pub fn record_lens(out: &mut Out, tier: &str, seed: u64, profile: &str) {
+    attempt_oversized();
     let n = if tier == "thorough" { 30000 } else { 1800 };
     let mut rng = Rng::new(seed ^ 0xC02);
     let mut b = budget(tier);
@@ -381,6 +551,7 @@ fn enc_event<F: Fam>(out: &mut Out, rng: &mut Rng, p: &F::Packet) {
 }
 
 pub fn record_enc(out: &mut Out, tier: &str, seed: u64) {
+    attempt_oversized();
     let n = if tier == "thorough" { 20000 } else { 900 };
     let mut rng = Rng::new(seed ^ 0xC09);
     let mut b = budget(tier);
